@@ -369,6 +369,31 @@ fn sd_decl(input: &str) -> IResult<&str, bool> {
 ///
 /// [\[39\] element](https://www.w3.org/TR/2008/REC-xml-20081126/#NT-element)
 pub fn element(input: &str) -> IResult<&str, model::Element<'_>> {
+    let depth = ELEMENT_DEPTH.with(|d| {
+        d.set(d.get() + 1);
+        d.get()
+    });
+    let result = if depth > MAX_ELEMENT_DEPTH {
+        Err(nom::Err::Error(nom::error::Error::new(
+            input,
+            ErrorKind::TooLarge,
+        )))
+    } else {
+        element_body(input)
+    };
+    ELEMENT_DEPTH.with(|d| d.set(d.get() - 1));
+    result
+}
+
+/// Deepest element nesting that is parsed; deeper input is refused with an error instead of
+/// exhausting the stack of the recursive descent.
+pub const MAX_ELEMENT_DEPTH: usize = 128;
+
+thread_local! {
+    static ELEMENT_DEPTH: std::cell::Cell<usize> = const { std::cell::Cell::new(0) };
+}
+
+fn element_body(input: &str) -> IResult<&str, model::Element<'_>> {
     alt((
         empty_entity_tag,
         map(
